@@ -4,6 +4,8 @@ use crate::harness::{Program, Tier};
 use std::collections::BTreeMap;
 
 pub mod c01;
+pub mod c02;
+pub mod c03;
 pub mod c04;
 pub mod strfam;
 pub mod c05;
@@ -45,7 +47,7 @@ pub struct PropDef {
 }
 
 pub fn all() -> Vec<PropDef> {
-    vec![c01::def(), c04::def(), c05::def(), c06::def(), c12::def(), c16::def(), c18::def(), c19::def(), c20::def()]
+    vec![c01::def(), c02::def(), c03::def(), c04::def(), c05::def(), c06::def(), c12::def(), c16::def(), c18::def(), c19::def(), c20::def()]
 }
 
 pub fn get(id: &str) -> Option<PropDef> {
